@@ -33,6 +33,10 @@ Inductive stat_res := SExists | SMissing | SDenied.
 (* os.readlink(); for a target also what os.stat() says about the string cut at the first NUL *)
 Inductive link_res := LTarget (raw : bytes) (st : stat_res) | LENOENT | LESRCH | LEACCES.
 
+(* what is at a path: an executable regular file (mode 0755), a regular file without
+   any x bit (0644), a searchable directory (0755); a path that is not listed does not exist *)
+Inductive pkind := PRegX | PReg | PDir.
+
 Record pview := {
   v_pdir : bool;            (* os.path.lexists("/proc/<pid>") *)
   v_stat : option bool;     (* /proc/<pid>/stat: None = cannot be read / absent; Some z = state is 'Z' *)
@@ -41,10 +45,20 @@ Record pview := {
   v_environ : file_res;
   v_exe : link_res;
   v_cwd : link_res;
-  v_xfiles : list bytes     (* paths p with os.path.isfile(p) and os.access(p, X_OK) *)
+  v_paths : list (bytes * pkind)   (* the file system as far as cmdline()[0] may point into it *)
 }.
 
-Definition xfile (v : pview) (p : bytes) : bool := existsb (beqb p) (v_xfiles v).
+Fixpoint path_kind (ps : list (bytes * pkind)) (p : bytes) : option pkind :=
+  match ps with
+  | [] => None
+  | (q, k) :: r => if beqb p q then Some k else path_kind r p
+  end.
+(* os.path.isfile(p): stat succeeds and S_ISREG *)
+Definition isfile (v : pview) (p : bytes) : bool :=
+  match path_kind (v_paths v) p with Some PRegX | Some PReg => true | _ => false end.
+(* os.access(p, os.X_OK): exists and has an x bit (a 0755 directory does) *)
+Definition access_x (v : pview) (p : bytes) : bool :=
+  match path_kind (v_paths v) p with Some PRegX | Some PDir => true | _ => false end.
 
 (* ------------------------------------------------ wrap_exceptions *)
 Inductive raw_exn := RPerm | RLookup | RNotFound.   (* PermissionError, ProcessLookupError, FileNotFoundError *)
@@ -176,7 +190,7 @@ Definition guess_it (c : cfg) (v : pview) (fallback : outcome bytes) : outcome b
   | OutOfModel => OutOfModel
   | Val [] => fallback
   | Val (a0 :: _) =>
-    if prefixb [47] a0 && xfile v a0 then Val a0 else fallback
+    if prefixb [47] a0 && isfile v a0 && access_x v a0 then Val a0 else fallback
   end.
 
 (* state: self._exe ; returns (answer, new state) *)
